@@ -678,6 +678,7 @@ func (s *Sim) DeviceEvent(taskId string, typ string, extra map[string]interface{
 }
 
 func (s *Sim) reconcile(fw string) {
+	defer reconcileFinished() // reconbarrier.go
 	s.mu.Lock()
 	var ls []*liveTask
 	for _, lt := range s.live {
